@@ -576,18 +576,40 @@ func c45(r *vkit.Run) {
 		"each is parsed from an exactly-sized allocation under recover; accepted + representable values are re-marshalled and re-parsed and must be equal. " +
 		"Excluded corners (encoding cannot carry them / RFC minimum sizes): empty certificates and DNs, ALPN/NPN names outside 1..255, random != 32 bytes, sessionTicket without ticketSupported, " +
 		"signatureAndHashes without the TLS1.2 flag. clientHello.secureRenegotiation is expected as flag || SCSV(0x00ff) offered. " +
-		"Non-trivial generated value = has at least one non-empty variable-length field; every byte string differing from a valid encoding is non-trivial. Distinct = hash(kind, flag, bytes).")
+		"Non-trivial generated value = has at least one non-empty variable-length field; every byte string differing from a valid encoding is non-trivial. Distinct = hash(kind, flag, bytes). " +
+		"Structured wire messages (built by an own RFC encoder, not by marshal): F1 hello kind x extension type (10 named by bfe_tls + 5 unknown) x body (all lengths 0..5, thorough 0..40, with zero/ff/length-consistent/random fill; " +
+		"valid body with 1-/2-byte inner length = actual-1, actual+1, 0, 1, odd, max; body cut/extended by 1,2; every body byte set to 0,1,-1,+1,80,ff) x position (only, first, middle, last; thorough every position among <= 6 extensions), " +
+		"outer framing consistent; F2 every length-prefixed vector of every message kind (session id, cipher suites, compression methods, extensions block, extension bodies and their inner lists, certificate list/entries, " +
+		"certificate types, signature algorithms, CA names, OCSP response, ticket, signature, NPN proto/padding, sessionState secret/certs/count): declared length 0,1,a-1,a+1,a+2,odd,max,to-end,1-past-end with the rest untouched, and content resized to 0,1,2,3,a-2..a+2,max " +
+		"with all enclosing lengths recomputed; F3 extensions-block length +-1,+-2, +1/+2 with bytes appended, no/empty block, truncation at every byte of the last extension with and without the block length repaired. " +
+		"Each structured message is one evaluation: parsed from an exact allocation, from the middle of a larger buffer with cap==len, and with cap>len under two surroundings (same result required - a re-slice into spare capacity is a read outside the message); accepted+representable values go through the round-trip oracle. " +
+		"Run is inconclusive unless every named extension type had a zero-length body in each of the four positions (in particular LAST) and the len1..3/valid/trunc/outer classes in last position, in both hello kinds. " +
+		"Not judged (inside the message, outside the statement): whether the outcome depends on message bytes after the declared body of an extension; it is measured against alternative opaque followers and reported as observed_dependence_* counters.")
 	r.Assume("messages observed through bfe_tls.VerifMarshal/VerifUnmarshal (field-for-field mirrors, raw cache empty so marshal() runs)")
 	st := &c45Stats{}
 	if r.Replay != "" {
-		var w c45Witness
-		if err := r.LoadReplay(&w); err != nil {
+		// a witness is either the case itself or (panics caught by r.Try)
+		// an envelope {"case": ..., "panic": ..., "stack": ...}
+		var env struct {
+			c45Witness
+			Case *c45Witness `json:"case"`
+		}
+		if err := r.LoadReplay(&env); err != nil {
 			r.Inconclusive(err.Error())
 			return
 		}
-		if w.Msg != nil && w.Origin == "generated" {
+		w := env.c45Witness
+		if env.Case != nil {
+			w = *env.Case
+		}
+		switch {
+		case w.Msg != nil && w.Origin == "generated":
 			c45RoundTrip(r, st, w.Msg, &w)
-		} else {
+		case w.Origin == "structured":
+			c45SEval(r, st, nil, &c45SCase{Kind: w.Kind, Flag: w.Flag, Ext: "-", Class: "replay", Pos: "-", Msg: w.Input})
+			r.SetMinDistinct(0)
+			return
+		default:
 			c45Parse(r, st, w.Kind, w.Flag, w.Input, w.Origin)
 		}
 		r.Evals(1)
@@ -666,6 +688,9 @@ func c45(r *vkit.Run) {
 		c45Parse(r, st, kind, flag, b, "random")
 		r.Case(vkit.Hash64("rnd", kind, fmt.Sprint(flag), string(b)), n > 0)
 	})
+
+	// structure-aware wire messages (c45struct.go)
+	c45Structured(r, st)
 
 	r.Count("generated_values", st.gen)
 	r.Count("generated_nontrivial", st.genNontrivial)
